@@ -12,10 +12,32 @@ type HashingReaderWrapper struct {
 	Reader             *bufio.Reader
 	CalculateSignature bool
 	hash               hash.Hash
+	// position counts the bytes consumed so far. It is a pointer because the wrapper is
+	// passed around by value and all copies read from the same underlying reader.
+	position *int64
+}
+
+// NewHashingReaderWrapper creates a wrapper which keeps track of the number of consumed bytes
+func NewHashingReaderWrapper(reader *bufio.Reader) HashingReaderWrapper {
+	return HashingReaderWrapper{
+		Reader:   reader,
+		position: new(int64),
+	}
+}
+
+// Position returns the number of bytes consumed so far via Read and Discard
+func (t *HashingReaderWrapper) Position() int64 {
+	if t.position == nil {
+		return 0
+	}
+	return *t.position
 }
 
 func (t *HashingReaderWrapper) Read(bytes []byte) (int, error) {
 	byteCount, err := t.Reader.Read(bytes)
+	if t.position != nil {
+		*t.position += int64(byteCount)
+	}
 	if t.CalculateSignature == true && err == nil {
 		if byteCount == len(bytes) {
 			t.hash.Write(bytes)
@@ -50,7 +72,10 @@ func (t HashingReaderWrapper) Reset(reader io.Reader) {
 }
 
 func (t *HashingReaderWrapper) Discard(offset int64) error {
-	_, err := t.Reader.Discard(int(offset))
+	discarded, err := t.Reader.Discard(int(offset))
+	if t.position != nil {
+		*t.position += int64(discarded)
+	}
 	if err != nil {
 		return err
 	}
